@@ -6,9 +6,10 @@
       0<=f<6 /\ 0<=l<=30 /\ 0<=k<4^l /\ c = f*2^61 + (2k+1)*4^(30-l). *)
 From Coq Require Import ZArith List Bool Floats Reals.
 From Geo Require Import Base.GoPrim Gen.CellIDFull Model.CellIDTables
-  Base.F64Arith Proofs.C01_Tables Proofs.C01_Algebra Proofs.C01_IJ Proofs.C01_Advance Proofs.C01_Iter Proofs.C01_Point Proofs.StUV_Mono.
+  Base.F64Arith Proofs.C01_Tables Proofs.C01_Algebra Proofs.C01_IJ Proofs.C01_Advance Proofs.C01_Iter Proofs.C01_Point Proofs.C01_Text Proofs.StUV_Mono.
 (* the hand models compared with Go by the observer (built with this file: one make target) *)
-From Geo Require Model.CellIDNbr Model.CellIDText Model.C01Obs.
+From Geo Require Model.CellIDNbr Model.C01Obs.
+From Geo Require Import Model.CellIDText.
 Import ListNotations.
 Local Open Scope Z_scope.
 
@@ -94,6 +95,24 @@ Theorem c01_face_ij_roundtrip : forall f i j, 0 <= f < 6 -> 0 <= i < 2 ^ 30 -> 0
     s2_CellID_faceIJOrientation (s2_cellIDFromFaceIJ f i j) = (f, i, j, o).
 Proof. exact ij_roundtrip. Qed.
 Print Assumptions c01_face_ij_roundtrip.
+
+(** text forms (hand model Model/CellIDText.v, compared with Go on every run) -------------- *)
+Theorem c01_token_roundtrip : forall c, 0 <= c < 2 ^ 64 ->
+  CellIDFromToken (ToToken c) = c /\ (length (ToToken c) <= 16)%nat.
+Proof. intros c Hc. split; [exact (token_roundtrip c Hc)|exact (ToToken_length c)]. Qed.
+Print Assumptions c01_token_roundtrip.
+
+Example c01_token_zero : ToToken 0 = [88] /\ CellIDFromToken [88] = 0.
+Proof. split; reflexivity. Qed.
+
+Theorem c01_string_roundtrip : forall c f l k, rep c f l k -> CellIDFromString (CellID_String c) = c.
+Proof. exact string_roundtrip. Qed.
+Print Assumptions c01_string_roundtrip.
+
+Theorem c01_from_string_zero_or_valid : forall s : list Z,
+  CellIDFromString s = 0 \/ s2_CellID_IsValid (CellIDFromString s) = true.
+Proof. exact FromString_zero_or_valid. Qed.
+Print Assumptions c01_from_string_zero_or_valid.
 
 (** along the curve ----------------------------------------------------------- *)
 Theorem c01_next_wrap_is_index_plus_one : forall c f l k, rep c f l k ->
